@@ -369,6 +369,19 @@ Theorem C11_M_to_E_starter_pi_monotone : forall (L : libm R) fuel e M Es,
 Proof. exact M_to_E_starter_pi_monotone. Qed.
 Print Assumptions C11_M_to_E_starter_pi_monotone.
 
+(* ---- round 6: the primary in the value flow --------------------------------------------------------------------- *)
+(* Python with jacobi_masses=True computes exactly what C computes for the primary whose mass has FIRST been replaced by
+   m0 (m + Mint)/Mint - m; the substitution precedes P -> a and T -> M (moving it after them is seeded mutation c11e).
+   With jacobi_masses=False the flow is the one of C11_value_flow_same. *)
+Theorem C11_value_flow_jacobi_masses : forall T (N : Num T) (L : libm T) cbrt pow jm m0 Mint afp pe an v,
+  pow_like_c N L cbrt pow (with_pm v (py_primary_mass N jm (vpm v) (vm v) m0 Mint)) ->
+  nmul N (nmul N (nofZ N 4) (l_pi L)) (l_pi L) = nmul N (nofZ N 4) (nmul N (l_pi L) (l_pi L)) ->
+  py_elements_jm N L pow jm m0 Mint afp pe an v =
+  c_elements N L cbrt afp pe an (with_pm v (py_primary_mass N jm (vpm v) (vm v) m0 Mint)) /\
+  py_elements_jm N L pow false m0 Mint afp pe an v = py_elements N L pow afp pe an v.
+Proof. intros. split; [apply flow_jm_same; assumption | apply flow_jm_off]. Qed.
+Print Assumptions C11_value_flow_jacobi_masses.
+
 (* Non-vacuity: a concrete inclined eccentric orbit (cos/sin pairs 3/5,4/5 etc.) meets every hypothesis. *)
 Example C11_hypotheses_inhabited :
   let t := mkTrig (3/5) (4/5) (5/13) (12/13) (-4/5) (3/5) (8/17) (15/17) in
